@@ -33,6 +33,7 @@ fn main() {
         std::process::exit(props::replay(&prop, &r));
     }
     let res = match prop.as_str() {
+        "C06" => props::c06::run(&cfg),
         "C08" => props::c08::run(&cfg),
         "C09" => props::c09::run(&cfg),
         "C10" => props::c10::run(&cfg),
